@@ -528,16 +528,18 @@ Proof.
   2:{ destruct (too_old st (l_common l) (l_time l)); reflexivity. }
   unfold verify_lca, byz_ok_on_chain. rewrite V, RF.
   rewrite (validate_abci_spec l vals (vals_at en th) t (W vals th t V RF)).
-  rewrite header_invalid_differ, !Z.gtb_ltb.
+  rewrite header_invalid_differ, !Z.gtb_ltb. unfold sigs_for_block_ok.
   destruct (too_old st (l_common l) (l_time l)); cbn [negb andb]; [reflexivity|].
   destruct (l_common l =? l_height l); cbn [negb].
   - destruct (hashes_differ l t); cbn [negb andb]; [reflexivity|].
     destruct (l_light_ok l); cbn [negb andb]; [|reflexivity].
+    destruct (forallb _ (l_sigs l)); cbn [negb andb]; [|reflexivity].
     destruct (l_total l =? vs_total vals); cbn [negb andb]; [|reflexivity].
     destruct ((th <? l_height l) && (h_time t <? l_ctime l)); cbn [negb andb]; [reflexivity|].
     destruct (h_hash t =? l_chash l)%N; cbn [negb andb]; reflexivity.
   - destruct (l_trusting_ok l); cbn [negb andb]; [|reflexivity].
     destruct (l_light_ok l); cbn [negb andb]; [|reflexivity].
+    destruct (forallb _ (l_sigs l)); cbn [negb andb]; [|reflexivity].
     destruct (l_total l =? vs_total vals); cbn [negb andb]; [|reflexivity].
     destruct ((th <? l_height l) && (h_time t <? l_ctime l)); cbn [negb andb]; [reflexivity|].
     destruct (h_hash t =? l_chash l)%N; cbn [negb andb]; reflexivity.
